@@ -1,10 +1,10 @@
 package main
 
 import (
-	"regexp"
 	"fmt"
 	"go/ast"
 	"go/types"
+	"regexp"
 	"strings"
 
 	"golang.org/x/tools/go/packages"
